@@ -874,8 +874,10 @@ theorem validTokenNameB_iff (n : Name) : validTokenNameB n = true ↔ ValidToken
     matchesTokenRegex_iff, ← Bool.not_eq_true, endsWithUnderscore_iff, hasDoubleUnderscore_iff, hr, not_or]
   simp only [and_assoc, ne_eq]
 
-theorem ruleNameOk_iff (n : Name) : ruleNameOk n = true ↔ ValidRuleName n := by
-  simp only [ruleNameOk, Bool.not_eq_true', ValidRuleName, ← Bool.not_eq_true, hasDoubleUnderscore_iff]
+theorem validRuleNameB_iff (n : Name) : validRuleNameB n = true ↔ ValidRuleName n := by
+  have hr := isReserved_iff n
+  simp only [validRuleNameB, ruleNameOk, Bool.and_eq_true, Bool.not_eq_true', ValidRuleName, ← Bool.not_eq_true,
+    hasDoubleUnderscore_iff, hr, not_or, ne_eq]
 
 
 /-! ## The passes in terms of the declarations -/
@@ -948,23 +950,19 @@ theorem expandExpr_eq_nil (env : Env) (e : LExpr) :
   · simp [h, List.flatMap_eq_nil_iff]
   · simp [h]
 
-theorem generate_nil_iff {s : Spec} (hnd : (s.declared.map (·.1)).Nodup) (h2 : Clean2 s s.declared) :
-    generate s.declared s = [] ↔ Clean4 s s.declared := by
+/-- The statements' part of pass `GenerateGrammar` in terms of the declarations. -/
+structure Clean4L (s : Spec) (env : Env) : Prop where
+  shape : ∀ r ∈ s.lexRules, ∀ e, r.expr? = some e → exprShapeOk e = true
+  tokenActs : ∀ r ∈ s.lexRules, r.isToken = true → ∀ a ∈ r.actions, a.isDiscard = false ∧ a.isEmit = false
+  fragActs : ∀ r ∈ s.lexRules, r.isFrag = true →
+    (r.actions.filter Action.isDiscard).length + (r.actions.filter Action.isEmit).length ≤ 1
+  acyclic : ∀ m, ¬ env.Reach m m
+
+theorem lexGenerate_nil_iff {s : Spec} (hnd : (s.declared.map (·.1)).Nodup) (h2 : Clean2 s s.declared) :
+    (∀ r ∈ s.lexRules, r.generate s.declared = []) ↔ Clean4L s s.declared := by
   have hres := resolved_of_clean2 h2
-  have hstart : generate s.declared s = [] ↔
-      (∀ r ∈ s.lexRules, r.generate s.declared = []) ∧ (s.declared.hasRules = true → s.declared.hasStart = true) := by
-    unfold generate
-    simp only [isEmpty_false_iff]
-    by_cases h : s.stmts.flatMap (Stmt.generate s.declared) = []
-    · have h' := stmtGenerate_eq_nil.1 h
-      simp only [h, ne_eq, not_true_eq_false, if_false]
-      cases h1 : s.declared.hasRules <;> cases h2 : s.declared.hasStart <;> simp <;> exact h'
-    · have h' := h
-      rw [stmtGenerate_eq_nil] at h'
-      simp [h, h']
-  rw [hstart]
   constructor
-  · rintro ⟨hg, hs⟩
+  · intro hg
     have hmac : ∀ m, s.declared.IsMacro m → expandMacro s.declared (s.declared.length + 1) [] m = [] := by
       rintro m ⟨id, l, e, hl⟩
       have := hg _ (macro_rule_of_declared (mem_of_lookup hl))
@@ -972,7 +970,7 @@ theorem generate_nil_iff {s : Spec} (hnd : (s.declared.map (·.1)).Nodup) (h2 : 
       by_cases hsh : exprShapeOk e = true
       · simpa [hsh] using this
       · simp [hsh] at this
-    refine ⟨?_, ?_, ?_, acyclic_of_expandMacro_nil _ hmac, hs⟩
+    refine ⟨?_, ?_, ?_, acyclic_of_expandMacro_nil _ hmac⟩
     · intro r hr e he
       have := hg r hr
       cases r with
@@ -1001,8 +999,7 @@ theorem generate_nil_iff {s : Spec} (hnd : (s.declared.map (·.1)).Nodup) (h2 : 
       cases r <;> simp [LexRule.isFrag] at hf
       simp only [LexRule.generate, List.append_eq_nil_iff, fragActionDiags_eq_nil] at this
       simpa [LexRule.actions, b2n] using this.2
-  · rintro ⟨hshape, htok, hfrag, hac, hs⟩
-    refine ⟨?_, hs⟩
+  · rintro ⟨hshape, htok, hfrag, hac⟩
     have hexp : ∀ b, s.declared.IsMacro b → expandMacro s.declared (s.declared.length + 1) [] b = [] := by
       intro b hb
       exact expandMacro_nil_of_acyclic hres hac _ [] b hb List.nodup_nil (by simp) (by simp) (by simp)
@@ -1022,6 +1019,26 @@ theorem generate_nil_iff {s : Spec} (hnd : (s.declared.map (·.1)).Nodup) (h2 : 
       simp only [LexRule.generate, hshape _ hr e rfl]
       simpa using hexp n ⟨id, l, e, lookup_of_mem hnd (declared_of_macro_rule hr)⟩
     | external id l names => simp [LexRule.generate]
+
+
+theorem generate_eq_nil_split (env : Env) (s : Spec) : generate env s = [] ↔
+    (∀ r ∈ s.lexRules, r.generate env = []) ∧ (env.hasRules = true → env.hasStart = true) := by
+  unfold generate
+  simp only [isEmpty_false_iff]
+  by_cases h : s.stmts.flatMap (Stmt.generate env) = []
+  · have h' := stmtGenerate_eq_nil.1 h
+    simp only [h, ne_eq, not_true_eq_false, if_false]
+    cases h1 : env.hasRules <;> cases h2 : env.hasStart <;> simp <;> exact h'
+  · have h' := h
+    rw [stmtGenerate_eq_nil] at h'
+    simp [h, h']
+
+theorem generate_nil_iff {s : Spec} (hnd : (s.declared.map (·.1)).Nodup) (h2 : Clean2 s s.declared) :
+    generate s.declared s = [] ↔ Clean4 s s.declared := by
+  rw [generate_eq_nil_split, lexGenerate_nil_iff hnd h2]
+  constructor
+  · rintro ⟨⟨a, b, c, d⟩, hs⟩; exact ⟨a, b, c, d, hs⟩
+  · rintro ⟨a, b, c, d, hs⟩; exact ⟨⟨a, b, c, d⟩, hs⟩
 
 /-- `analyze` reports nothing exactly when every stage is clean. -/
 theorem analyze_nil_clean (s : Spec) :
@@ -1073,10 +1090,10 @@ theorem validate_lexical {ev : Ev} (h : ev.check = .lexical) : ev.validate = [] 
   rw [h]
   by_cases h1 : tokenNameShapeOk ev.name = true <;> by_cases h2 : isReserved ev.name = true <;> simp [h1, h2]
 
-theorem validate_rule {ev : Ev} (h : ev.check = .rule) : ev.validate = [] ↔ ruleNameOk ev.name = true := by
-  unfold Ev.validate
+theorem validate_rule {ev : Ev} (h : ev.check = .rule) : ev.validate = [] ↔ validRuleNameB ev.name = true := by
+  unfold Ev.validate validRuleNameB
   rw [h]
-  by_cases h1 : ruleNameOk ev.name = true <;> simp [h1]
+  by_cases h1 : ruleNameOk ev.name = true <;> by_cases h2 : isReserved ev.name = true <;> simp [h1, h2]
 
 theorem validate_none {ev : Ev} (h : ev.check = .none) : ev.validate = [] := by
   unfold Ev.validate; rw [h]
@@ -1212,7 +1229,7 @@ theorem clean_iff_wellFormed (s : Spec) :
         · simp_all [Ent.isToken, Ent.isMacro, Ent.isExt]
         · exact h
         · simp_all [Ent.isMode]
-      exact (ruleNameOk_iff _).1 ((validate_rule hc).1 (c1.valid ev hev))
+      exact (validRuleNameB_iff _).1 ((validate_rule hc).1 (c1.valid ev hev))
     · intro l hl ln n hn
       obtain ⟨r, hr, hl⟩ := mem_leaves.1 hl
       subst hn
@@ -1290,7 +1307,7 @@ theorem clean_iff_wellFormed (s : Spec) :
         · obtain ⟨a, ha⟩ := (Ent.isToken_iff _).1 hk; rw [ha] at hd; exact Or.inl ⟨a, hd⟩
         · obtain ⟨id, l, ex, ha⟩ := (Ent.isMacro_iff _).1 hk; rw [ha] at hd; exact Or.inr (Or.inl ⟨id, l, ex, hd⟩)
         · rw [(Ent.isExt_iff _).1 hk] at hd; exact Or.inr (Or.inr hd)
-      · refine (validate_rule hc).2 ((ruleNameOk_iff _).2 (w.ruleNames _ ?_))
+      · refine (validate_rule hc).2 ((validRuleNameB_iff _).2 (w.ruleNames _ ?_))
         obtain ⟨b, hb⟩ := (Ent.isRule_iff _).1 hk; rw [hb] at hd; exact ⟨b, hd⟩
       · exact validate_none hc
     · by_cases hne : s.prules = []
@@ -1604,8 +1621,10 @@ theorem regEv_at {env : Env} {ev : Ev} {d : Diag} (h : d ∈ (regEv env ev).2) :
       · simp only [List.mem_singleton] at this; subst this; simp [Diag.At]
       · split at this <;> simp at this
         subst this; simp [Diag.At]
-    · split at this <;> simp at this
-      subst this; simp [Diag.At]
+    · split at this
+      · simp only [List.mem_singleton] at this; subst this; simp [Diag.At]
+      · split at this <;> simp at this
+        subst this; simp [Diag.At]
     · simp at this
 
 theorem mem_foldDiag {α : Type} {f : Env → α → Env × List Diag} {env : Env} {xs : List α} {d : Diag}
